@@ -1,5 +1,5 @@
 SPECIFICATION MCSpec
-CONSTANT Params <- EfiParamsSet
+CONSTANT Params <- EfiParamsAll
 CONSTANT MkCase <- EfiCase
 CONSTANT MaxD = 64
 CONSTANT LCap = 100
